@@ -6,6 +6,12 @@ CHECKS = {
  "C01": ("property-based testing (proptest round trip + metamorphic batching relation) and coverage-guided fuzzing (libFuzzer, same oracle)",
          "Randomised, class-measured search over message sequences x codecs x encodings x buffer settings x chunkings x readiness patterns; every case runs tonic's real EncodeBody and Streaming under a harness-owned poll schedule and is judged by a round trip plus the batching-independence relation. No counterexample among the measured cases; not a proof.",
          "Trusts flate2/zstd determinism, the harness poll driver and proptest's generators; bounds: <=12 messages, <=70 KiB each, <=64 chunks.", "4/C01"),
+ "C04": ("property-based testing (proptest round trip + totality over arbitrary header maps), exhaustive enumeration of the HTTP-status and h2-reason tables, coverage-guided fuzzing of from_header_map",
+         "Randomised round trips of Status through add_header/into_http/from_header_map judged by independent percent/base64 decoders and a reference multimap; arbitrary malformed header maps (no panic, UNKNOWN / non-OK degradation); HTTP 100..=599 and h2 reasons 0..=13 enumerated completely against tables transcribed from the gRPC documents.",
+         "Trusts the transcription of the two gRPC mapping tables and the http crate's HeaderValue validation; gray-zone base64 (odd padding, non-zero trailing bits) only required not to panic / not to read as OK.", "4/C04"),
+ "C07": ("property-based testing (mutation-based generation against an independent reference parser; history invariant over repeated polls) and coverage-guided fuzzing",
+         "Mutated valid streams and raw bytes under arbitrary chunking, trailers and injected body errors are fed to tonic's Streaming, which is then polled 6 more times; an independent parser supplies the expected message prefix; invariants: no panic, every poll completes, one error at most, nothing after the terminal event, definite malformations must error.",
+         "Content of compressed payloads that a mutation touched is not compared (decompressors may differ on garbage); bounds: <=6 frames, default 4 MiB limit, <=24 chunks.", "4/C07"),
 }
 NOT_YET = {}
 def main():
